@@ -35,6 +35,16 @@ RULE = ("exhaustive cross product: 8 undefined types (Undefined, ChainableUndefi
         "with a data-supplied name): only dunder names answer AttributeError, every other name "
         "fails with UndefinedError / chains; distinct by (type, origin, way, leading, trailing "
         "underscores, inner underscore). "
+        "plus a constructor-argument section: every type x boundary values of EVERY constructor "
+        "argument - hint (None, '', blank, text, 0, 123, []) x name (None, '', str, 7, 0, a tuple) x "
+        "obj (not given, None, 0, '', a class, a dict), exc (UndefinedError / SecurityError) and the "
+        "three ways of passing them (keywords, positionally, Environment.undefined) rotating - x all "
+        "unary operations, the binary operations with a rotating operand, and (every hint x name, obj "
+        "rotating) the template operations on the undefined handed in as data (sync, async), with "
+        "the documented message rule checked on every raised error, on str() of DebugUndefined and "
+        "on the logged messages: a hint with text is the message; without a hint (None or '') the "
+        "generated message names the name (a str verbatim, an int / tuple key by its repr); distinct "
+        "by (type, hint, obj, name, operation, operand kind). "
         "a random extension varies variable names (incl. non-ASCII identifiers), operands and "
         "attribute names (random underscore shapes), ChainableUndefined access paths (30 rounds/shard quick, up to 4000 thorough)")
 TECHNIQUE = "reference-table monitor over the exhaustive type x origin x operation x operand table"
@@ -57,6 +67,12 @@ ASSUMPTIONS = [
     "of the left one's); otherwise the left (non-strict) operand's own answer is accepted",
     "logging variants: only the documented 'logs iterations and printing' is demanded; pickle of "
     "logging variants is not exercised (class is local to the factory)",
+    "constructor arguments: 'The hint is used as error message for the exception if provided, "
+    "otherwise the error message will be generated from obj and name' - an empty-string hint is "
+    "no message, so the generated text is demanded (the statement: 'The error message names the "
+    "missing variable or attribute'); hints outside the documented domain 'None or a string with "
+    "the error message' (blank, non-str) may be used or ignored; name None / '' has nothing to "
+    "name; how obj is described in the message is not checked",
     "dunder attribute names (two leading and two trailing underscores): only getattr()/hasattr() "
     "on the object are decided (AttributeError / False); what template dot access, "
     "Environment.getattr and the attr filter make of a dunder name is not documented and not "
@@ -74,7 +90,15 @@ FLOORS = {
                            "attr_cells": 8000, "attr_cells_dunder": 400,
                            "attr_cells_two_leading_underscores": 3000,
                            "outcome_attrerr": 200, "hash_eq_checks": 60,
-                           "container_agreement_checks": 200}},
+                           "container_agreement_checks": 200, "ctor_arg_cells": 50000,
+                           "ctor_arg_py_cells": 40000, "ctor_arg_tmpl_cells": 9000,
+                           "ctor_arg_raising_cells": 25000,
+                           "ctor_arg_msg_hint_text": 4000,
+                           "ctor_arg_msg_hint_blank_or_nonstr": 16000,
+                           "ctor_arg_msg_nohint_must_name": 5500,
+                           "ctor_arg_msg_hint_emptystr_must_name": 2800,
+                           "ctor_arg_msg_nonstr_name": 4000, "ctor_arg_msg_obj_given": 4500,
+                           "ctor_arg_log_checks": 1700}},
     "thorough": {"evaluations": 150000, "distinct": 40000,
                  "counters": {"py_cells": 100000, "tmpl_cells": 15000, "async_cells": 150,
                               "outcome_err": 100000, "outcome_val": 25000, "log_checks": 1000,
@@ -83,7 +107,15 @@ FLOORS = {
                               "attr_cells_dunder": 400,
                               "attr_cells_two_leading_underscores": 3000,
                               "outcome_attrerr": 200, "hash_eq_checks": 60,
-                              "container_agreement_checks": 200}},
+                              "container_agreement_checks": 200, "ctor_arg_cells": 50000,
+                              "ctor_arg_py_cells": 40000, "ctor_arg_tmpl_cells": 9000,
+                              "ctor_arg_raising_cells": 25000,
+                              "ctor_arg_msg_hint_text": 4000,
+                              "ctor_arg_msg_hint_blank_or_nonstr": 16000,
+                              "ctor_arg_msg_nohint_must_name": 5500,
+                              "ctor_arg_msg_hint_emptystr_must_name": 2800,
+                              "ctor_arg_msg_nonstr_name": 4000, "ctor_arg_msg_obj_given": 4500,
+                              "ctor_arg_log_checks": 1700}},
 }
 
 TYPE_SPECS = list(T.BASES) + [f"Logging({b})" for b in T.BASES]
@@ -138,7 +170,60 @@ API_ORIGINS = ("env_name", "env_obj_name", "hint", "hint_name_obj", "ctor", "cto
 ORIGINS = TEMPLATE_ORIGINS + API_ORIGINS
 
 
+# boundary values of every constructor argument of the undefined types; an origin
+# "args:<hint>:<obj>:<name>:<exc>:<via>" names one combination (labels, so a case is JSON-able)
+class _NotGiven:
+    pass
+
+
+ARG_HINTS = [("none", None), ("empty", ""), ("space", " \t"), ("text", HINT2),
+             ("int0", 0), ("int", 123), ("emptylist", [])]
+ARG_OBJS = [("missing", _NotGiven), ("none", None), ("int0", 0), ("emptystr", ""),
+            ("class", "$plaincls"), ("dict", {"present": 1})]
+ARG_NAMES = [("none", None), ("empty", ""), ("str", "$nm"), ("int", 7), ("int0", 0),
+             ("tuple", (1, "b"))]
+ARG_EXCS = ("U", "S")
+ARG_VIAS = ("ctor", "ctorpos", "env")
+
+
+def args_origin(h, o, n, e="U", via="ctor"):
+    return f"args:{h}:{o}:{n}:{e}:{via}"
+
+
+def is_args(origin):
+    return origin.startswith("args:")
+
+
+def build_args(env, cls, origin, nm):
+    """-> (u, info) for an "args:" origin"""
+    from jinja2.sandbox import SecurityError
+
+    _, h, o, n, e, via = origin.split(":")
+    hint = copy.deepcopy(dict(ARG_HINTS)[h])
+    obj = dict(ARG_OBJS)[o]
+    obj = Plain if obj == "$plaincls" else copy.deepcopy(obj)
+    name = dict(ARG_NAMES)[n]
+    name = nm if name == "$nm" else name
+    kw = {}
+    if obj is not _NotGiven:
+        kw["obj"] = obj
+    if e == "S":
+        kw["exc"] = SecurityError
+    if via == "ctor":
+        u = cls(hint=hint, name=name, **kw)
+    elif via == "ctorpos":
+        u = cls(hint, kw.pop("obj"), name, **kw) if "obj" in kw else cls(hint, name=name, **kw)
+    else:
+        u = env.undefined(hint, name=name, **kw)
+    info = T.ctor_arg_info(hint, name, obj is not _NotGiven,
+                           "SecurityError" if e == "S" else "UndefinedError")
+    info["args"] = (h, o, n)
+    return u, info
+
+
 def origin_expr(kind, nm):
+    if is_args(kind):
+        return "uarg"
     return {
         "name": nm, "attr_obj": f"obj.{nm}", "attr_int": f"num.{nm}", "dot_dict": f"d.{nm}",
         "item_dict": f"d['{nm}']", "item_list": "seq[99]",
@@ -153,6 +238,8 @@ def make_undefined(env, cls, kind, nm):
     """-> (u, origin_info)"""
     from jinja2.sandbox import SecurityError
 
+    if is_args(kind):
+        return build_args(env, cls, kind, nm)
     info = {"kind": kind, "names": [nm], "hint": None, "plain_name": None, "exc": "UndefinedError"}
     if kind in TEMPLATE_ORIGINS:
         got = []
@@ -486,6 +573,33 @@ def report(ctx, level, op, spec, fail, cell):
 
 
 # ------------------------------------------------------------------ python level cells
+def arg_dist(origin):
+    """distinct-case component of an origin: exc / via of an args origin do not make a new case"""
+    return ":".join(origin.split(":")[:4]) if is_args(origin) else origin
+
+
+def count_args(ctx, info, level, outcome):
+    h, o, n = info["args"]
+    ctx.count("ctor_arg_cells")
+    ctx.count(f"ctor_arg_{level}_cells")
+    if outcome[0] == "exc":
+        ctx.count("ctor_arg_raising_cells")
+        if info.get("hint") and not info.get("hint_weak"):
+            ctx.count("ctor_arg_msg_hint_text")
+        elif info.get("hint_weak"):
+            ctx.count("ctor_arg_msg_hint_blank_or_nonstr")
+        elif info.get("unnamed"):
+            ctx.count("ctor_arg_msg_nohint_unnamed")
+        else:
+            ctx.count("ctor_arg_msg_nohint_must_name")
+            if h == "empty":
+                ctx.count("ctor_arg_msg_hint_emptystr_must_name")
+            if n in ("int", "int0", "tuple"):
+                ctx.count("ctor_arg_msg_nonstr_name")
+            if o not in ("missing",):
+                ctx.count("ctor_arg_msg_obj_given")
+
+
 def py_unary_group(ctx, env, cls, base, recs, spec, origin, nm):
     ops = unary_ops(env)
     u, info = make_undefined(env, cls, origin, nm)
@@ -552,7 +666,9 @@ def py_cell(ctx, env, cls, base, recs, cell, u=None, info=None):
             outcome = attempt(BIN[op], u, x)
     ctx.ev()
     ctx.count("py_cells")
-    ctx.dist(("py", spec, origin, op, opd["kind"] if opd else None))
+    ctx.dist(("py", spec, arg_dist(origin), op, opd["kind"] if opd else None))
+    if is_args(origin):
+        count_args(ctx, info, "py", outcome)
     fail = judge(ctx, cell, expected, outcome, info, xinfo, u)
     if fail:
         report(ctx, "py", op, spec, fail, cell)
@@ -580,6 +696,8 @@ def py_cell(ctx, env, cls, base, recs, cell, u=None, info=None):
         ctx.count("log_records_seen", len(recs))
         if op in ("str", "format", "iter"):
             ctx.count("log_checks")
+            if is_args(origin):
+                ctx.count("ctor_arg_log_checks")
             if not any(T.message_ok(m, info) for _, m in recs):
                 report(ctx, "py", op, spec, ("not-logged",
                                              f"logger saw {recs!r}, nothing naming the variable"),
@@ -720,11 +838,28 @@ def tmpl_expected_text(base, tname, mop, expected, conv, info):
     raise AssertionError(expected)
 
 
+_tcache = {}
+
+
+def cached_template(env, src):
+    """the sources of the constructor-argument section do not vary with the arguments (the
+    undefined is data): compile each once per environment"""
+    k = (id(env), src)
+    if k not in _tcache:
+        _tcache[k] = (env, env.from_string(src))
+    return _tcache[k][1]
+
+
 def tmpl_cell(ctx, env, base, recs, cell):
     spec, origin, nm, tname = cell["type"], cell["origin"], cell["name"], cell["op"]
     E = origin_expr(origin, nm)
     info = {"kind": origin, "names": ["99"] if origin == "item_list" else [nm], "hint": None,
             "plain_name": nm if origin == "name" else None, "exc": "UndefinedError"}
+    uarg = None
+    if is_args(origin):
+        # the undefined built from boundary constructor arguments is handed to the template
+        # as the variable `uarg` (what a filter / function returning env.undefined(...) does)
+        uarg, info = build_args(env, env.undefined, origin, nm)
     opd = cell["operand"]
     xinfo = None
     conv = None
@@ -787,11 +922,18 @@ def tmpl_cell(ctx, env, base, recs, cell):
     rctx["obj2"] = Plain()
     rctx.update(foreign_undefineds())
     cell["src"] = src
-    outcome = attempt(lambda: env.from_string(src).render(**rctx))
+    if uarg is not None:
+        rctx["uarg"] = uarg
+        outcome = attempt(lambda: cached_template(env, src).render(**rctx))
+    else:
+        outcome = attempt(lambda: env.from_string(src).render(**rctx))
     ctx.ev()
     is_async = bool(cell.get("async"))
     ctx.count("async_cells" if is_async else "tmpl_cells")
-    ctx.dist(("async" if is_async else "tmpl", spec, origin, tname, opd["kind"] if opd else None))
+    ctx.dist(("async" if is_async else "tmpl", spec, arg_dist(origin), tname,
+              opd["kind"] if opd else None))
+    if uarg is not None:
+        count_args(ctx, info, "tmpl", outcome)
     cell["model_op"] = "aiter" if (is_async and mop == "iter") else mop
     if expected[0] in ("val", "weak"):
         checker = tmpl_expected_text(base, tname, mop, expected, conv, info)
@@ -818,6 +960,8 @@ def tmpl_cell(ctx, env, base, recs, cell):
         ctx.count("log_records_seen", len(recs))
         if tname in ("print", "for", "list"):
             ctx.count("log_checks")
+            if uarg is not None:
+                ctx.count("ctor_arg_log_checks")
             if not any(T.message_ok(m, info) for _, m in recs):
                 report(ctx, "tmpl", tname, spec,
                        ("not-logged", f"{src!r}: logger saw {recs!r}"), cell)
@@ -892,6 +1036,41 @@ def run(ctx):
                     cell = {"level": "tmpl", "type": spec, "origin": origin, "name": nm,
                             "op": op, "operand": {"kind": okind, "value": ovalue}}
                     tmpl_cell(ctx, env, base, recs, cell)
+    # ---- boundary values of the constructor arguments -----------------------------------
+    ci = 0
+    for spec in TYPE_SPECS:
+        cls, base, recs, env, aenv = envs_for(spec, cache)
+        for h, _ in ARG_HINTS:
+            for n, _ in ARG_NAMES:
+                for o, _ in ARG_OBJS:
+                    ci += 1
+                    gi += 1
+                    if not ctx.mine(gi):
+                        continue
+                    origin = args_origin(h, o, n, ARG_EXCS[ci % 5 == 0],
+                                         ARG_VIAS[ci % len(ARG_VIAS)])
+                    py_unary_group(ctx, env, cls, base, recs, spec, origin, nm)
+                    if ci % 2:
+                        okind, ovalue = OPERANDS[(ci // 2) % len(OPERANDS)]
+                        py_binary_group(ctx, env, cls, base, recs, spec, origin, nm, okind,
+                                        ovalue)
+                    if ci % len(ARG_OBJS) == (ci // len(ARG_OBJS)) % len(ARG_OBJS):
+                        # template level: every hint x name, the obj rotating
+                        origin = args_origin(h, o, n)
+                        for t in TMPL_UNARY:
+                            tmpl_cell(ctx, env, base, recs,
+                                      {"level": "tmpl", "type": spec, "origin": origin,
+                                       "name": nm, "op": t[0], "operand": None})
+                        for tname in ASYNC_OPS:
+                            tmpl_cell(ctx, aenv, base, recs,
+                                      {"level": "tmpl", "type": spec, "origin": origin,
+                                       "name": nm, "op": tname, "operand": None, "async": True})
+                        okind, ovalue = TMPL_OPERANDS[ci % len(TMPL_OPERANDS)]
+                        for op in TMPL_BIN_OPS:
+                            tmpl_cell(ctx, env, base, recs,
+                                      {"level": "tmpl", "type": spec, "origin": origin,
+                                       "name": nm, "op": op,
+                                       "operand": {"kind": okind, "value": ovalue}})
     ctx.exhaustive = True
     ctx.extra["table_groups"] = gi if ctx.shard == 0 else 0
     random_extension(ctx, cache, 30 if ctx.tier == "quick" else 4000)
